@@ -24,7 +24,8 @@ func (b RepoDescriptors) Len() int {
 	return len(b)
 }
 func (b RepoDescriptors) Less(i, j int) bool {
-	return b[i].Name < b[j].Name
+	// same order as the archive keys repos/{name}/repo.yaml, in which batches of repos are retrieved
+	return b[i].Name+"/" < b[j].Name+"/"
 }
 
 // Last returns the last entry in a slice of RepoDescriptors
